@@ -132,6 +132,15 @@ int main(int argc, char** argv)
         std::printf("C16 MACHINE pus=%u cores=%zu maskcount=%zu mask=%s\n", pika::threads::detail::hardware_concurrency(),
             top.get_number_of_cores(), pika::threads::detail::count(top.get_cpubind_mask_main_thread()),
             pika::threads::detail::to_string(top.get_cpubind_mask_main_thread()).c_str());
+        // the PU mask of every core (the keyword `cores` counts the cores that have a PU in the effective mask);
+        // masks are printed by to_string as one digit per PU (most significant first), not as a hexadecimal number
+        std::string cm;
+        for (std::size_t i = 0; i < top.get_number_of_cores(); ++i)
+        {
+            if (i) cm += ",";
+            cm += pika::threads::detail::to_string(top.init_core_affinity_mask_from_core(i));
+        }
+        std::printf("C16 TOPO coremasks=%s\n", cm.c_str());
         std::fflush(stdout);
     }
     std::function<int(int, char**)> f = app_main;
